@@ -639,12 +639,11 @@ def r87(ctx):
         raise AnalysisError(f"R-8.7: only {n} unit obligations could be formed")
 
 
-def r89(ctx):
+def r89(ctx, rid="R-8.9"):
     """Rows written on the per-step path are on disk before the commit: every `.write(` in the
     functions treat_output reaches before write_toml (and in write_toml / the path store) goes
     to a handle bound by a `with open(...)` of the same function (closed when the block ends),
     or is followed by flush()/close() of that handle in the same function."""
-    rid = "R-8.9"
     tree = ctx.tree
     cls = tree.cls(REPEX, "REPEX_state")
     methods = {s.name: s for s in cls.body if isinstance(s, FUNC)}
@@ -689,7 +688,7 @@ def r89(ctx):
                 ctx.bad(rid, c, f"{q}: `{rp}.write(...)` goes to a file handle that is not closed or flushed before the step is committed (restart.toml is written while the row is still in the process's buffer): if the main process dies, restart.toml says the step happened but the data-file row of the replaced path is lost - after continuing, that path appears zero times in the data file",
                         construct=f"{q}: buffered write to {rp} before the commit")
     if n < 3:
-        raise AnalysisError(f"R-8.9: only {n} file writes found on the per-step path (expected >= 3)")
+        raise AnalysisError(f"{rid}: only {n} file writes found on the per-step path (expected >= 3)")
 
 
 def run(ctx):
